@@ -27,6 +27,8 @@ def ser_node(n, reg, dynamic=False):
     k = n[0]
     if k == "text":
         return f"[{n[1]}]"
+    if k == "raw":  # pre-serialised template source (used by the C10 family splitter)
+        return n[1]
     if k == "fp":
         if n[2] == "filter":
             return '{{ "[' + n[1] + ']"|vffilter }}'
